@@ -17,20 +17,21 @@ import (
 // ---- scenario format (produced by TLC emission or by the random generator) -----------
 
 type Pkt struct {
-	Sid   int      `json:"sid"` // index into the sid pool
-	Seq   int      `json:"seq"`
-	Ty    int      `json:"ty"`
-	Min   int      `json:"min"`
-	Fl    int      `json:"fl"`
-	Rd    string   `json:"rd"`              // ok | short | badhdr | oversize | mismatch | eof
-	Ops   []string `json:"ops"`             // what the handler does if this packet is dispatched
-	Body  []int    `json:"body,omitempty"`  // clear body override
-	CKey  []int    `json:"ckey,omitempty"`  // client key override (key mismatch experiments)
-	Rsz   int      `json:"rsz,omitempty"`   // reply body size target
-	Rst   int      `json:"rst,omitempty"`   // reply status override
-	Bv    int      `json:"bv,omitempty"`    // bad header variant
-	Chunk int      `json:"chunk,omitempty"` // feed in chunks of this many bytes (0 = one chunk)
-	Pre   []int    `json:"pre,omitempty"`   // octets written before the header (proxy-mode streams: the PROXY line)
+	Sid      int      `json:"sid"` // index into the sid pool
+	Seq      int      `json:"seq"`
+	Ty       int      `json:"ty"`
+	Min      int      `json:"min"`
+	Fl       int      `json:"fl"`
+	Rd       string   `json:"rd"`                 // ok | short | badhdr | oversize | mismatch | eof
+	Ops      []string `json:"ops"`                // what the handler does if this packet is dispatched
+	Body     []int    `json:"body,omitempty"`     // clear body override
+	CKey     []int    `json:"ckey,omitempty"`     // client key override (key mismatch experiments)
+	Rsz      int      `json:"rsz,omitempty"`      // reply body size target
+	Rst      int      `json:"rst,omitempty"`      // reply status override
+	Bv       int      `json:"bv,omitempty"`       // bad header variant
+	Chunk    int      `json:"chunk,omitempty"`    // feed in chunks of this many bytes (0 = one chunk)
+	Pre      []int    `json:"pre,omitempty"`      // octets written before the header (proxy-mode streams: the PROXY line)
+	ViaWrite bool     `json:"viawrite,omitempty"` // the handler answers through Response.Write with a packet built on a copy of the request's header
 }
 
 type Scen struct {
@@ -118,7 +119,15 @@ func (h *chaosH) Handle(resp tq.Response, req tq.Request) {
 				v, kind := makeReply(ty, op, p)
 				cb, _ := v.MarshalBinary() // the clear reply body the handler hands to Reply (nil if it does not validate)
 				r.rec.Emit(E{"e": "rep", "k": kind, "op": op, "cb": B(cb)})
-				resp.Reply(v)
+				if p.ViaWrite && op == "reply" && cb != nil && hd.SeqNo < 255 {
+					// a handler that builds the reply packet itself: the request's header copied, the sequence number bumped -
+					// the length field still says what the REQUEST's body was
+					h2 := req.Header
+					h2.SeqNo = hd.SeqNo + 1
+					resp.Write(&tq.Packet{Header: &h2, Body: cb})
+				} else {
+					resp.Reply(v)
+				}
 			}
 		}
 	}
